@@ -699,6 +699,18 @@ func (e *Env) call(x *ECall) Term {
 			e.fail("typetag needs a type")
 		}
 		return Term{S: fmt.Sprint(vc.ss().typeTag(tt)), Sort: "Int"}
+	case "content":
+		// content(b): the bytes of a []byte as a string value
+		a := e.value(e.tr(x.Args[0]))
+		if a.Sort != "Slice" {
+			e.fail("content() needs a slice")
+		}
+		name, sortName := vc.elemVar(types.Typ[types.Uint8])
+		vc.P.prelude.use(vc, "str_of_slice")
+		return Term{S: sx("str_of_slice", sx("select", vc.get(e.st, name, sortName), sx("sl_ref", a.S)), sx("sl_off", a.S), sx("sl_len", a.S)), Sort: "Str", T: types.Typ[types.String]}
+	case "sref":
+		a := e.value(e.tr(x.Args[0]))
+		return Term{S: sx("sl_ref", a.S), Sort: "Int"}
 	case "upd":
 		a := e.value(e.tr(x.Args[0]))
 		k := e.value(e.tr(x.Args[1]))
@@ -786,7 +798,10 @@ func (e *Env) call(x *ECall) Term {
 		}
 		var as []string
 		for i, a := range x.Args {
-			t := e.value(e.tr(a))
+			t := e.tr(a)
+			if sig.args[i] != "Int" {
+				t = e.value(t)
+			}
 			t, _ = e.coerceNil(t, Term{Sort: sig.args[i]})
 			if t.Sort != sig.args[i] {
 				e.fail("argument %d of %s has sort %s, want %s", i+1, x.Fun, t.Sort, sig.args[i])
@@ -874,7 +889,10 @@ func (e *Env) recCall(sf *SpecFun, x *ECall) Term {
 	}
 	var as []string
 	for i, a := range x.Args {
-		t := e.value(e.tr(a))
+		t := e.tr(a)
+		if info.psorts[i] != "Int" {
+			t = e.value(t)
+		}
 		t, _ = e.coerceNil(t, Term{Sort: info.psorts[i]})
 		if t.Sort != info.psorts[i] {
 			e.fail("argument %d of %s has sort %s, want %s", i+1, sf.Name, t.Sort, info.psorts[i])
